@@ -820,8 +820,26 @@ func c07OpHooks(c *Case, rng *Rng) []c04Hook {
 // (first attempt and retries) is judged by `oracle merged`.
 func c07Operator(c *Case, rng *Rng, r *Run) {
 	hooks := c07OpHooks(c, rng)
+	// sixth wave: 60 % of the cases give most hooks webhook bindings (conversion / validating / mutating);
+	// requests for them are answered out of band while a head task runs or waits for its retry
+	ww := &c07WhWorld{byHook: map[int][]c07Wh{}}
+	if rng.Chance(60) {
+		for i := range hooks {
+			if rng.Chance(75) {
+				ww.byHook[i] = c07GenWebhooks(rng, hooks[i].Num)
+				for _, x := range ww.byHook[i] {
+					hooks[i].Extra += x.yaml()
+				}
+			}
+		}
+	}
 	p := c04Plan{hooks: hooks, boInit: time.Duration(rng.Range(30, 60)) * time.Millisecond, boStep: 5 * time.Millisecond,
 		initial: map[int][]c04Ev{}, maxSteps: 60}
+	if len(ww.byHook) > 0 {
+		// a request sent during a back-off has to be answered (bash hook run) before the back-off can end
+		p.boInit = time.Duration(rng.Range(600, 900)) * time.Millisecond
+		c.Note("case:operator-with-webhook-bindings")
+	}
 	byQueue := map[int][]c04Ev{}
 	for hi, h := range hooks {
 		for bi := range h.Bindings {
@@ -855,34 +873,99 @@ func c07Operator(c *Case, rng *Rng, r *Run) {
 		}
 		total += n
 	}
+	// sixth wave: a third of the failing runs do not fail in the hook process: the hook ends well and a
+	// dependency of the handler (the storage of hook metrics) panics once, after the combination and
+	// the hook run; the queue handler of the world reports the panic as a failed run and the task is retried
+	var fault *c07FaultStorage
 	p.outcome = func(id, failed int) string {
 		if failed < 2 && rng.Chance(45) {
+			if fault != nil && rng.Chance(35) && !c07HeadAF(ww.w, id) {
+				fault.armed.Store(true)
+				c.Note("fault:handler-panic-after-the-hook-run(reported as a failed run, retried)")
+				return "okfault"
+			}
 			return "exit"
 		}
 		return "ok"
 	}
+	// a webhook request: mostly for the hook whose task is at the head of the driven queue
+	whLeft, whDead := 4, false
+	webhook := func(qn int, state string) {
+		if whDead || whLeft == 0 || ww.w == nil || len(ww.byHook) == 0 || !rng.Chance(55) {
+			return
+		}
+		hi := -1
+		if q := ww.w.op.TaskQueues.GetByName(c04QueueName(qn)); q != nil && rng.Chance(80) {
+			if ss := ww.w.snapQueue(q); len(ss) > 0 {
+				if hh, ok := ww.w.hookByName(ss[0].hook); ok && len(ww.byHook[hh.Num-1]) > 0 {
+					hi = hh.Num - 1
+				}
+			}
+		}
+		if hi < 0 {
+			var his []int
+			for i := range hooks {
+				if len(ww.byHook[i]) > 0 {
+					his = append(his, i)
+				}
+			}
+			hi = PickOne(rng, his)
+		}
+		whLeft--
+		if !ww.fire(hi, PickOne(rng, ww.byHook[hi]), state) {
+			whDead = true
+		}
+	}
 	arrivals := 0
 	p.arrivals = func(qn, step int) []c04Ev {
-		if arrivals >= 4 || !rng.Chance(30) || len(byQueue[qn]) == 0 {
-			return nil
+		if rng.Chance(50) {
+			webhook(qn, "running") // the head is blocked at its gate, its followers (if any) are queued
 		}
-		arrivals++
-		return []c04Ev{PickOne(rng, byQueue[qn])}
+		var evs []c04Ev
+		if !(arrivals >= 4 || !rng.Chance(30) || len(byQueue[qn]) == 0) {
+			arrivals++
+			evs = []c04Ev{PickOne(rng, byQueue[qn])}
+		}
+		return evs
 	}
 	boArr := 0
 	p.boArrivals = func(qn, step int) []c04Ev {
-		if boArr >= 2 || !rng.Chance(30) || len(byQueue[qn]) == 0 {
-			return nil
+		var evs []c04Ev
+		if !(boArr >= 2 || !rng.Chance(30) || len(byQueue[qn]) == 0) {
+			boArr++
+			evs = []c04Ev{PickOne(rng, byQueue[qn])}
 		}
-		boArr++
-		return []c04Ev{PickOne(rng, byQueue[qn])}
+		if len(evs) == 0 {
+			webhook(qn, "backoff") // the failed head waits for its retry
+		}
+		return evs
 	}
-	p.onExec = c07OnExec
-	c.Desc = fmt.Sprintf("operator: %d hooks (names %q…), event layouts main=%d q1=%d, failing runs retried", len(hooks), hooks[0].Name, len(p.initial[0]), len(p.initial[1]))
+	p.onExec = func(w *c04World, qn, id int, pre, now []c04Snap, run *c04Running) {
+		if ww.w == nil {
+			ww.w = w
+			fault = c07InstallFault(w)
+		}
+		c07OnExec(w, qn, id, pre, now, run)
+	}
+	c.Desc = fmt.Sprintf("operator: %d hooks (names %q…), event layouts main=%d q1=%d, failing runs retried, %d hooks with webhook bindings", len(hooks), hooks[0].Name, len(p.initial[0]), len(p.initial[1]), len(ww.byHook))
 	c.Nontrivial = total >= 2
 	c.Note("case:operator-events-and-retries")
 	c.Op("mode operator", "ok")
 	c04Execute(c, r, p)
+}
+
+// c07HeadAF: allowFailure of the running head task with that number (true when unknown: an allowed
+// failure is not retried).
+func c07HeadAF(w *c04World, id int) bool {
+	if w == nil {
+		return true
+	}
+	for _, run := range w.running {
+		if run != nil && w.tasks.Id(run.head.id) == id {
+			return run.head.af
+		}
+	}
+	return true
 }
 
 // c07OnExec states the property for one execution on the real operator.
@@ -901,7 +984,7 @@ func c07OnExec(w *c04World, qn, id int, pre, now []c04Snap, run *c04Running) {
 }
 
 func runC07(r *Run) {
-	r.Rule = "queue layouts of 1..10 tasks in the task's queue (+0..2 in a second queue) over 3 hooks x 3 task types x metadata-less tasks x contexts (0..3 per task, unique binding names, groups {\"\",g1,g2} interleaved) x monitor ids x allowFailure; the real combineBindingContextForHook (via verif_export_c07.go) or its exported twin is called for the head task (78%), a task in the middle, with a nil queue, with a task naming another / an absent queue, for a task that is in no queue and names none (what the admission and conversion handlers run; the queue pointer is then GetByName of its empty name, as in taskHandleHookRun; oracle untouched: nothing merged, no queue changed); stop predicate nil / allowFailure-differs / id set; in 55% of the calls 1..3 tasks are appended to the queues by a second goroutine while the combiner is parked between Iterate and Filter; 35% of the cases run a second call after the task's metadata was updated with the first result. Oracle lines (head-of-own-queue calls): returned contexts = Spec.compact of the concatenation in queue order, monitor ids, every queue of the set afterwards. Non-trivial: >= 2 tasks in the queue; distinct = distinct op-line sequences. Plus whole-operator startups (real taskHandleHookRun with generated hooks: grouped/ungrouped Synchronization tasks; oracle: an ungrouped Synchronization runs with its own contexts and the queue is left alone). Fourth wave: the hook number of a layout stands for one of 10 tables of names that look equal (letter case only, prefix of each other, trailing characters, unicode case pairs, path spellings); queued non-head tasks are probes that report every GetId/GetType/GetMetadata the combiner makes: in 15% of the head calls one task is appended by another goroutine started from inside the k-th such access (k random), so the append lands wherever the combiner reads tasks without the queue lock (and waits where it holds it). Whole-operator cases with events (40 quick / 300 thorough): 2..3 bash hooks whose file names look equal, mostly in one queue, loaded by the real loader, each with 2..3 schedule and 0..2 kubernetes bindings in one of the group layouts schedule-only / kubernetes-only / mixed / two groups / none; layouts of 2..7 tasks are built by the real schedule / kubernetes controllers and the events handler while a run is blocked, 45% of the runs fail (up to twice per task) and are retried, more tasks arrive during runs and back-offs. Oracle `merged` on EVERY execution (first attempt and retries): what the hook found in its context file = Spec.compact of the concatenation in queue order of the contexts, as the hook configuration declares them, of the head, of everything merged into it by earlier attempts and of the following run of the same hook/type; exactly that run left the queue. Thorough adds every layout of a head (3 groups) with <= 4 followers over 6 follower kinds, with and without a concurrent append."
+	r.Rule = "queue layouts of 1..10 tasks in the task's queue (+0..2 in a second queue) over 3 hooks x 3 task types x metadata-less tasks x contexts (0..3 per task, unique binding names, groups {\"\",g1,g2} interleaved) x monitor ids x allowFailure; the real combineBindingContextForHook (via verif_export_c07.go) or its exported twin is called for the head task (78%), a task in the middle, with a nil queue, with a task naming another / an absent queue, for a task that is in no queue and names none (what the admission and conversion handlers run; the queue pointer is then GetByName of its empty name, as in taskHandleHookRun; oracle untouched: nothing merged, no queue changed); stop predicate nil / allowFailure-differs / id set; in 55% of the calls 1..3 tasks are appended to the queues by a second goroutine while the combiner is parked between Iterate and Filter; 35% of the cases run a second call after the task's metadata was updated with the first result. Oracle lines (head-of-own-queue calls): returned contexts = Spec.compact of the concatenation in queue order, monitor ids, every queue of the set afterwards. Non-trivial: >= 2 tasks in the queue; distinct = distinct op-line sequences. Plus whole-operator startups (real taskHandleHookRun with generated hooks: grouped/ungrouped Synchronization tasks; oracle: an ungrouped Synchronization runs with its own contexts and the queue is left alone). Fourth wave: the hook number of a layout stands for one of 10 tables of names that look equal (letter case only, prefix of each other, trailing characters, unicode case pairs, path spellings); queued non-head tasks are probes that report every GetId/GetType/GetMetadata the combiner makes: in 15% of the head calls one task is appended by another goroutine started from inside the k-th such access (k random), so the append lands wherever the combiner reads tasks without the queue lock (and waits where it holds it). Whole-operator cases with events (40 quick / 300 thorough): 2..3 bash hooks whose file names look equal, mostly in one queue, loaded by the real loader, each with 2..3 schedule and 0..2 kubernetes bindings in one of the group layouts schedule-only / kubernetes-only / mixed / two groups / none; layouts of 2..7 tasks are built by the real schedule / kubernetes controllers and the events handler while a run is blocked, 45% of the runs fail (up to twice per task) and are retried, more tasks arrive during runs and back-offs. Oracle `merged` on EVERY execution (first attempt and retries): what the hook found in its context file = Spec.compact of the concatenation in queue order of the contexts, as the hook configuration declares them, of the head, of everything merged into it by earlier attempts and of the following run of the same hook/type; exactly that run left the queue. Sixth wave: in 60% of the event-and-retry operator cases most hooks ALSO have 1..2 webhook bindings (kubernetesCustomResourceConversion / kubernetesValidating / kubernetesMutating, 30% of them with the `group:` the other bindings use); up to 4 requests per case are answered out of band through the real routers (chi, httptest) of the operator's admission and conversion WebhookHandlers -> the event closure of initValidatingWebhookManager / conversionEventHandler -> HookManager -> taskHandler -> taskHandleHookRun -> bash, mostly for the hook whose task is at the head of the driven queue, while that head task is blocked in its run (its followers queued behind it) or sleeps in its back-off after a failed run (back-off 600..900 ms; inconclusive when the answer did not arrive before the back-off could end). Oracle `webhook` per request: the hook found exactly the context of its request in its context file (rendered with its own type, never Group) and every queue of the set holds the same tasks in the same places while that hook runs and after it has finished as before the request - tasks leave a queue only by being merged into its executed head. A third of the failing runs of these cases (head not allowFailure) do not fail in the hook process: the hook ends well and the storage of hook metrics (public interface field of the operator, wrapped) panics once in the SendBatch that follows every hook run, i.e. after combination and run; the queue handler of the world reports the escaping panic to the worker as a failed run, the task is retried and the retry is judged by oracle merged like every attempt. Corpus: 5 (webhook requests while the head of main runs / waits), 6 (handler panic after combined runs), 7 (a task merged by a failing retry, third attempt judged). Thorough adds every layout of a head (3 groups) with <= 4 followers over 6 follower kinds, with and without a concurrent append."
 	// corpus
 	r.One(0, func(c *Case, _ *Rng) {
 		c.Desc = "corpus: interleaved groups, monitor ids, a foreign hook in the middle, concurrent append"
@@ -1002,6 +1085,144 @@ func runC07(r *Run) {
 			c.Op("reset", "ok")
 			c07Run(c, l, []c07Call{{Twin: probe%4 >= 2, Passed: 1, T: l.Tasks[0], Stop: "none", Apps: map[int][]c07Task{1: {app}}, AppOrd: []int{1}, Probe: probe}}, false)
 		}
+	})
+	r.One(5, func(c *Case, _ *Rng) {
+		c.Desc = "corpus operator: hooks with conversion / validating / mutating bindings next to schedule bindings in the main queue; requests answered out of band while the head task of main (same hook, followers queued) runs and while it waits for its retry"
+		c.Nontrivial = true
+		ww := &c07WhWorld{byHook: map[int][]c07Wh{
+			0: {{Kind: "conversion", Name: "conv1", Crd: "things1.c07.example.com"}, {Kind: "validating", Name: "v1.c07.example.com", Group: 1}},
+			1: {{Kind: "mutating", Name: "m2.c07.example.com"}},
+		}}
+		hooks := []c04Hook{
+			{Name: "10-sync", Num: 1, Queue: 0, Bindings: []c04Binding{
+				{Name: "b1", Crontab: "1 0 1 1 *", Group: 1}, {Name: "b2", Crontab: "2 0 1 1 *", Group: 1}, {Name: "b3", Crontab: "3 0 1 1 *"}}},
+			{Name: "10-Sync", Num: 2, Queue: 0, Bindings: []c04Binding{{Name: "b4", Crontab: "4 0 1 1 *"}, {Name: "b5", Crontab: "5 0 1 1 *"}}},
+		}
+		for i := range hooks {
+			for _, x := range ww.byHook[i] {
+				hooks[i].Extra += x.yaml()
+			}
+		}
+		p := c04Plan{hooks: hooks, boInit: 500 * time.Millisecond, boStep: 5 * time.Millisecond, maxSteps: 40,
+			initial: map[int][]c04Ev{0: {{0, 0, false}, {0, 1, false}, {0, 2, false}, {1, 0, false}, {0, 0, false}, {0, 1, false}, {1, 1, false}}}}
+		p.onExec = func(w *c04World, qn, id int, pre, now []c04Snap, run *c04Running) {
+			ww.w = w
+			c07OnExec(w, qn, id, pre, now, run)
+		}
+		gate := -1
+		p.outcome = func(id, failed int) string {
+			if gate < 0 {
+				gate = id
+				return "ok"
+			}
+			if failed < 1 {
+				return "exit"
+			}
+			return "ok"
+		}
+		headHook := func(qn int) int {
+			if ss := ww.w.snapQueue(ww.w.op.TaskQueues.GetByName(c04QueueName(qn))); len(ss) > 0 {
+				if hh, ok := ww.w.hookByName(ss[0].hook); ok {
+					return hh.Num - 1
+				}
+			}
+			return 0
+		}
+		dead := false
+		nreq := 0
+		req := func(qn int, state string) {
+			if dead || ww.w == nil || nreq >= 8 {
+				return
+			}
+			hi := headHook(qn)
+			l := ww.byHook[hi]
+			x := l[nreq%len(l)]
+			nreq++
+			dead = !ww.fire(hi, x, state)
+		}
+		p.arrivals = func(qn, step int) []c04Ev { req(qn, "running"); return nil }
+		p.boArrivals = func(qn, step int) []c04Ev { req(qn, "backoff"); return nil }
+		c.Op("mode operator", "ok")
+		c04Execute(c, r, p)
+	})
+	r.One(6, func(c *Case, _ *Rng) {
+		c.Desc = "corpus operator: combined runs whose handler panics once after the hook process ended well (the storage of hook metrics is broken once); the panic is reported to the queue as a failed run, the retry must receive every merged context"
+		c.Nontrivial = true
+		hooks := []c04Hook{
+			{Name: "hook01", Num: 1, Queue: 0, Bindings: []c04Binding{
+				{Name: "b1", Crontab: "1 0 1 1 *"}, {Name: "b2", Crontab: "2 0 1 1 *", Group: 1}, {Name: "b3", Crontab: "3 0 1 1 *"}}},
+			{Name: "hook02", Num: 2, Queue: 0, Bindings: []c04Binding{{Name: "b4", Crontab: "4 0 1 1 *"}}},
+		}
+		p := c04Plan{hooks: hooks, boInit: 20 * time.Millisecond, boStep: 5 * time.Millisecond, maxSteps: 40,
+			initial: map[int][]c04Ev{0: {{0, 0, false}, {0, 1, false}, {0, 2, false}, {0, 0, false}, {1, 0, false}, {0, 1, false}, {0, 2, false}}}}
+		var fault *c07FaultStorage
+		p.onExec = func(w *c04World, qn, id int, pre, now []c04Snap, run *c04Running) {
+			if fault == nil {
+				fault = c07InstallFault(w)
+			}
+			c07OnExec(w, qn, id, pre, now, run)
+		}
+		gate := -1
+		p.outcome = func(id, failed int) string {
+			if gate < 0 {
+				gate = id
+				return "ok"
+			}
+			if failed < 1 && fault != nil {
+				fault.armed.Store(true)
+				c.Note("fault:handler-panic-after-the-hook-run(reported as a failed run, retried)")
+				return "okfault"
+			}
+			return "ok"
+		}
+		c.Op("mode operator", "ok")
+		c04Execute(c, r, p)
+	})
+	r.One(7, func(c *Case, _ *Rng) {
+		c.Desc = "corpus operator: a combined run fails, a task of the same hook arrives during the back-off and is merged by the retry, the retry fails as well (once by exit code, once by a handler panic after the hook run): the third attempt must receive every merged context"
+		c.Nontrivial = true
+		hooks := []c04Hook{
+			{Name: "hook01", Num: 1, Queue: 0, Bindings: []c04Binding{
+				{Name: "b1", Crontab: "1 0 1 1 *"}, {Name: "b2", Crontab: "2 0 1 1 *"}, {Name: "b3", Crontab: "3 0 1 1 *", Group: 1}}},
+			{Name: "hook02", Num: 2, Queue: 0, Bindings: []c04Binding{{Name: "b4", Crontab: "4 0 1 1 *"}}},
+		}
+		p := c04Plan{hooks: hooks, boInit: 400 * time.Millisecond, boStep: 5 * time.Millisecond, maxSteps: 40,
+			initial: map[int][]c04Ev{0: {{0, 0, false}, {0, 1, false}, {0, 2, false}, {1, 0, false}, {0, 0, false}, {0, 2, false}}}}
+		var fault *c07FaultStorage
+		p.onExec = func(w *c04World, qn, id int, pre, now []c04Snap, run *c04Running) {
+			if fault == nil {
+				fault = c07InstallFault(w)
+			}
+			c07OnExec(w, qn, id, pre, now, run)
+		}
+		gate := -1
+		p.outcome = func(id, failed int) string {
+			if gate < 0 {
+				gate = id
+				return "ok"
+			}
+			switch {
+			case failed == 0:
+				return "exit"
+			case failed == 1 && fault != nil && id%2 == 0:
+				fault.armed.Store(true)
+				c.Note("fault:handler-panic-after-the-hook-run(reported as a failed run, retried)")
+				return "okfault"
+			case failed == 1:
+				return "exit"
+			}
+			return "ok"
+		}
+		nbo := 0
+		p.boArrivals = func(qn, step int) []c04Ev {
+			nbo++
+			if nbo%2 == 1 && nbo <= 5 {
+				return []c04Ev{{0, (nbo / 2) % 3, false}} // a task of hook01 behind the waiting head (directly behind it in the first round)
+			}
+			return nil
+		}
+		c.Op("mode operator", "ok")
+		c04Execute(c, r, p)
 	})
 	r.Cases(600000, r.N(40, 300), 0, func(c *Case, rng *Rng) { c07Operator(c, rng, r) })
 	if r.Thorough() {
